@@ -343,6 +343,11 @@ func (e *c07Env) runOp(op string) (string, error) {
 			return "err", err
 		}
 		e.sys.Conn.Flush()
+		// the open session applies the resulting state updates in its own goroutine (State.ApplyUpdate: one more
+		// transaction per update that passes its filter): wait for it, so that these steps belong to the operation
+		ctx, cancel := context.WithTimeout(context.Background(), 10*time.Second)
+		defer cancel()
+		_ = e.sys.Server.VerifBarrier(ctx, e.sys.UserID)
 		return "flushed", nil
 	}
 	switch op {
